@@ -410,7 +410,12 @@ class Translator:
             raise Unsupported("%s: assigned in a try body, not in its handler, and read outside"
                               % sorted((stored - rebound) & outside))
         self.catches.append(h.type.id)
-        return "STry %s %s" % (self.stmts(s.body), self.stmts(h.body))
+        body = self.stmts(s.body)
+        if "SCallSt " in body:
+            # a state change made before the exception would be rolled back by STry (its handler runs in
+            # the environment the statement started in)
+            raise Unsupported("state-changing call inside try")
+        return "STry %s %s" % (body, self.stmts(h.body))
 
     def append_call(self, s):
         """x.append(e) as a statement, x a local name"""
